@@ -603,6 +603,27 @@ pub enum ParseErrorLevel {
     Fatal,
 }
 
+/// Verification hook: drive the position bookkeeping of `ParseState` over `src`.
+/// Each step is `0` (one `next()`), `usize::MAX` (one `skip_whitespace()`) or a byte count for `skip_bytes`;
+/// the position and byte index after every step are returned.
+#[cfg(glass_easel_verif)]
+pub fn verif_positions(src: &str, steps: &[usize]) -> Vec<(Position, usize)> {
+    let mut ps = ParseState::new("", src, Default::default());
+    let mut out = vec![];
+    for step in steps {
+        if *step == 0 {
+            ps.next();
+        } else if *step == usize::MAX {
+            ps.skip_whitespace();
+        } else {
+            let n = (*step).min(ps.cur_str().len());
+            ps.skip_bytes(n);
+        }
+        out.push((ps.position(), ps.cur_index()));
+    }
+    out
+}
+
 /// Verification hook: run the expression parser alone on `src` (as the inside of `{{ ... }}`).
 #[cfg(glass_easel_verif)]
 pub fn verif_parse_expr(
